@@ -33,7 +33,7 @@ TIERS = {
     "thorough": {"cases": 96000, "batch": 500, "case_timeout": 60},
 }
 MIN_EVALS = {"quick": {"roundtrip": 20000, "single_line": 20000, "framing_diff": 3000, "framing_model": 3000,
-                       "dispatch_order_e2e": 300}}
+                       "dispatch_order_e2e": 300, "send_path_e2e": 8000}}
 SHRINK_KEYS = ["msgs", "train"]
 
 _PREFIX_RE = re.compile(r"^(int:|float:)|^(?i:bool:true|bool:false)$|^NoneType:$")
@@ -349,9 +349,80 @@ def _run_e2e(case, clauses, viol, obs, shapes):
                         viol.append({"clause": "payload_identity_e2e", "sig": "C19:payload_altered_end_to_end",
                                      "detail": {"mode": mode, "seq": n}})
                         break
+            _send_path(case, vm, holder["sock"], clauses, viol, obs, shapes)
     except MpfCrash as e:
         viol.append({"clause": "dispatch_order_e2e", "sig": "C19:crash_in_bcp_receive_path",
                      "detail": {"exc": repr(e)[:500]}})
+
+
+def _typed_twin(kwargs):
+    """Same keys, values that compare equal in Python but have another type (1 / True / 1.0, 0 / False / 0.0 ...)."""
+    out = {}
+    changed = False
+    for k, v in kwargs.items():
+        if isinstance(v, bool):
+            out[k] = int(v)
+            changed = True
+        elif isinstance(v, int) and abs(v) < 2 ** 53:
+            out[k] = (v == 1) if v in (0, 1) and len(k) % 2 else float(v)
+            changed = True
+        elif isinstance(v, float) and v == v and abs(v) < 2 ** 53 and v == int(v):
+            out[k] = int(v)
+            changed = True
+        else:
+            out[k] = v
+    return out if changed else None
+
+
+def _send_path(case, vm, sock, clauses, viol, obs, shapes):
+    """Outgoing direction on the real connection object: a HISTORY of commands through the transport manager's
+    send_to_client -> BCPClientSocket.send; every line captured at the socket must be what the stateless codec yields
+    for THAT message (so: decode to its values and types), whatever was sent on this connection before."""
+    from mpf.core.bcp.bcp_socket_client import encode_command_string
+    m = vm.machine
+    client = m.bcp.transport.get_named_client("local_display")
+    clauses.setdefault("send_path_e2e", 0)
+    if client is None:
+        return
+    hist = []
+    for cmd, kwargs in case["msgs"][:24]:
+        hist.append((cmd, kwargs))
+        tw = _typed_twin(kwargs)
+        if tw is not None:
+            hist.append((cmd, tw))
+            obs["e2e_typed_twins_sent"] = obs.get("e2e_typed_twins_sent", 0) + 1
+    # every message twice more, later in the history (a repeat must be sent again, identically)
+    hist = hist + hist[:8]
+    while not sock.send_queue.empty():
+        sock.send_queue.get_nowait()
+    expected = []
+    for cmd, kwargs in hist:
+        try:
+            line = encode_command_string(cmd, **kwargs)
+        except Exception:     # clause (a) reports encoder refusals
+            continue
+        if "\n" in line:
+            continue
+        m.bcp.transport.send_to_client(client, cmd, **kwargs)
+        expected.append((line + "\n").encode())
+    vm.advance(0.5)
+    wire = b""
+    while not sock.send_queue.empty():
+        wire += sock.send_queue.get_nowait()
+    lines = wire.split(b"\n")
+    lines = [ln + b"\n" for ln in lines[:-1]]
+    obs["e2e_lines_sent"] = obs.get("e2e_lines_sent", 0) + len(expected)
+    shapes.add("S:%d" % min(len(expected) // 8, 6))
+    pos = 0
+    for n, exp in enumerate(expected):
+        clauses["send_path_e2e"] += 1
+        try:
+            pos = lines.index(exp, pos) + 1
+        except ValueError:
+            viol.append({"clause": "send_path_e2e", "sig": "C19:sent_line_differs_from_codec_of_that_message",
+                         "detail": {"index": n, "expected": exp.decode(errors="replace")[:200],
+                                    "wire_from_here": [x.decode(errors="replace")[:120] for x in lines[pos:pos + 3]]}})
+            break
 
 
 def run_case(case):
